@@ -144,7 +144,9 @@ def run_case(ctx, rep, spec, field, volfrac, limit, model, path=None, truth=None
         rep.fail(f"integral is {got}: a value of a cell covered by a finer selected level (non-finite filler) was used; the sum "
                  f"over uncovered cells is {w} (levels 0..{L})", case, obs={"got": repr(got), "want": w})
         return
-    tol = 1e-9 * max(1.0, abs(w)) if not cli else 1e-9 * max(1.0, abs(w)) + 1e-14
+    fs_ = spec["data"].get("field_scale")
+    unit = abs(fs_[names[field] % len(fs_)]) if fs_ else 1.0         # magnitude of one value of the field (trace species: 1e-11)
+    tol = 1e-9 * max(unit, abs(w)) if not cli else 1e-9 * max(unit, abs(w)) + 1e-14
     if abs(got - w) > tol:
         rep.fail(f"integral {got} differs from the sum over uncovered cells {w} (levels 0..{L})", case, obs={"got": got, "want": w})
         return
